@@ -9,6 +9,7 @@ import (
 	"strings"
 	"testing"
 
+	"github.com/dgraph-io/ristretto"
 	"github.com/go-jose/go-jose/v3"
 	"github.com/ory/fosite"
 	"pgregory.net/rapid"
@@ -75,10 +76,21 @@ func TestC13_AuthorizeValidation(t *testing.T) {
 		}
 		// the operator may have installed a response-mode extension offering "web_message"
 		modeExt := rapid.IntRange(0, 2).Draw(rt, "responseModeExtension") == 0
+		// where the clients' keys come from: inline JWKS, or jwks_uri documents fetched (and cached) by the library's own
+		// fetcher over an in-process transport
+		keySource := rapid.SampledFrom([]string{"inline", "inline", "jwks_uri"}).Draw(rt, "keySource")
+		var jwksCache *ristretto.Cache[string, *jose.JSONWebKeySet]
+		if keySource == "jwks_uri" {
+			jwksCache, _ = ristretto.NewCache(&ristretto.Config[string, *jose.JSONWebKeySet]{NumCounters: 1000, MaxCost: 100, BufferItems: 64, Cost: func(*jose.JSONWebKeySet) int64 { return 1 }})
+			defer jwksCache.Close()
+		}
 		w := h.NewWorld(h.Spec{RefreshScopes: []string{}, Mutate: func(c *fosite.Config) {
 			c.MinParameterEntropy = minParam
 			if modeExt {
 				c.ResponseModeHandlerExtension = c13ModeExt{}
+			}
+			if keySource == "jwks_uri" {
+				c.JWKSFetcherStrategy = fosite.NewDefaultJWKSFetcherStrategy(fosite.JWKSFetcherWithHTTPClient(c.HTTPClient), fosite.JWKSFetcherWithCache(jwksCache))
 			}
 		}})
 		if modeExt {
@@ -118,12 +130,37 @@ func TestC13_AuthorizeValidation(t *testing.T) {
 		cl.RequestObjectSigningAlgorithm = regAlg
 		cl.JSONWebKeys = &jose.JSONWebKeySet{Keys: []jose.JSONWebKey{h.PublicJWK(h.RSAKey(1), "rsa-1", "RS256"), h.PublicJWK(h.ECKey("P-256"), "ec-1", "ES256")}}
 		cl.RequestURIs = []string{"https://rp.example/request.jwt"}
-		w.AddClient(cl, "s13")
 		// a second client whose key must not be usable for c13
 		other := stdClient("other13", false)
 		other.Secret = w.HashSecret("x")
-		other.JSONWebKeys = &jose.JSONWebKeySet{Keys: []jose.JSONWebKey{h.PublicJWK(h.RSAKey(2), "rsa-2", "RS256")}}
+		// (its key id is the same as c13's: key ids are chosen by the clients and say nothing about whose key it is)
+		other.JSONWebKeys = &jose.JSONWebKeySet{Keys: []jose.JSONWebKey{h.PublicJWK(h.RSAKey(2), "rsa-1", "RS256")}}
+		if keySource == "jwks_uri" {
+			// the two key sets are published at URIs that are different strings but easy to confuse
+			uris := rapid.SampledFrom([][2]string{
+				{"https://rp.example/keys?tenant=a", "https://rp.example/keys?tenant=b"},
+				{"https://rp.example/tenants/Acme/jwks.json", "https://rp.example/tenants/acme/jwks.json"},
+			}).Draw(rt, "jwksURIs")
+			for i, oc := range []*h.HClient{cl, other} {
+				doc, _ := jsonMarshal(oc.JSONWebKeys)
+				w.Docs[uris[i]] = string(doc)
+				oc.JSONWebKeys = nil
+				oc.JSONWebKeysURI = uris[i]
+			}
+			h.Label("keys-from-jwks_uri")
+		}
+		w.AddClient(cl, "s13")
 		w.AddClient(other, "x")
+		if keySource == "jwks_uri" && rapid.Bool().Draw(rt, "neighbourUsesRequestObjectFirst") {
+			// the other client sends a request object of its own first: its key set is in the fetcher's cache now
+			o := h.MustSignJWT(h.RSAKey(2), "RS256", "rsa-1", map[string]interface{}{"state": "neighbour-state-0123", "nonce": "neighbour-nonce-0123", "iss": "other13", "aud": h.Issuer, "response_type": "code", "client_id": "other13"})
+			r := w.Authorize(url.Values{"client_id": {"other13"}, "response_type": {"code"}, "scope": {"openid"}, "state": {"neighbour-state-0123"}, "nonce": {"neighbour-nonce-0123"}, "redirect_uri": {"https://rp.example/cb"}, "request": {o}}, h.Consent{})
+			if r.Code != "" && r.State == "neighbour-state-0123" {
+				h.Label("neighbour-uses-request-object-first")
+			} else {
+				rt.Logf("the other client's own request object was not honoured: %v %s", r.Err, r.Err.Hint)
+			}
+		}
 
 		// ---- request
 		clientID := "c13"
@@ -180,7 +217,7 @@ func TestC13_AuthorizeValidation(t *testing.T) {
 				obj, alg = h.MustSignJWT(h.RSAKey(0), "RS256", "rsa-1", claims), "RS256"
 				objOK = h.No
 			case "rs256-other-clients-key":
-				obj, alg = h.MustSignJWT(h.RSAKey(2), "RS256", "rsa-2", claims), "RS256"
+				obj, alg = h.MustSignJWT(h.RSAKey(2), "RS256", "rsa-1", claims), "RS256"
 				objOK = h.No
 			case "rs256-wrong-kid":
 				obj, alg = h.MustSignJWT(h.RSAKey(1), "RS256", "no-such-kid", claims), "RS256"
